@@ -229,7 +229,7 @@ def wsgi_stream(ctx, events, delays, charset, ping=0.02, share=False, consumer_d
     judge_stream(ctx, expected_events, text, case, "wsgi" + ("|event-object-reused" if share else ""))
 
 
-REGRESSION = [{"data": "L" * 70_000}, {"data": "x" * 65_536 + "\n" + "y" * 65_537, "event": "big"}, {"data": "a b"}, {"data": ""}, {"data": "a\x85b", "event": "x"}, {"data": "x\x0cy\x1dz"}, {"id": "5", "retry": 10},
+REGRESSION = [{"data": "s" * 65528}, {"data": "s" * (131072 - 8)}, {"data": "s" * 65527, "id": "7"}, {"data": "L" * 70_000}, {"data": "x" * 65_536 + "\n" + "y" * 65_537, "event": "big"}, {"data": "a b"}, {"data": ""}, {"data": "a\x85b", "event": "x"}, {"data": "x\x0cy\x1dz"}, {"id": "5", "retry": 10},
               {"data": "\n"}, {"data": "\r\n\r\n"}, {"data": " lead"}, {"data": ":colon"}, {"event": "", "data": "x"},
               {"data": "a\rb\nc\r\nd"}, {"data": "﻿bom"}]
 
